@@ -218,12 +218,12 @@ def guarded(f, *a):
     return v, ''
 
 
-def run_impl(name, x):
+def run_impl(name, x, column=False):
     fn = getattr(B, name, None)
     if fn is None:
         return None, 'missing'
     try:
-        v = fn(np.array(x, dtype=float))
+        v = fn(np.array(x, dtype=float).reshape(-1, 1) if column else np.array(x, dtype=float))
     except Exception as ex:        # noqa: BLE001
         return None, 'exception %s: %s' % (type(ex).__name__, ex)
     try:
@@ -277,6 +277,11 @@ def evaluate(name, info, x, cls):
             elif not close(impl, val):
                 c['oracle'].append({'key': 'formula:%s' % name, 'what': '%s returns %r but the %s gives %r'
                                     % (name, impl, label, val)})
+    # -- layout: an agent's position is an (n, 1) column; the documented formula does not depend on the layout of the n coordinates
+    colv, col_note = run_impl(name, x, column=True)
+    if (colv is None) != (impl is None) or (colv is not None and not close(colv, impl)):
+        c['oracle'].append({'key': 'layout:%s' % name, 'what': '%s returns %r (%s) for the coordinates as an (n, 1) column -- the layout of Agent.position -- '
+                            'and %r (%s) for the same coordinates as a flat vector' % (name, colv, col_note, impl, impl_note)})
     # -- minimum oracle
     if name in MINIMA and impl is not None:
         m, _, atol = MINIMA[name]
